@@ -16,7 +16,7 @@
 (* checks on the raw map, typed decode (recursively running the nested       *)
 (* types' own unmarshalers), then value validators.                          *)
 (***************************************************************************)
-EXTENDS JV
+EXTENDS Bounds, StrImpl
 
 \* names checked by requiredValidator for object schema s
 ReqChecked(s, D) ==
@@ -27,10 +27,18 @@ ReqChecked(s, D) ==
 RECURSIVE ImplValue(_, _, _, _)
 RECURSIVE ImplStruct(_, _, _, _)
 
+\* value validators attached to a struct field of primitive type (numericValidator / stringValidator)
+LeafOK(ps, v, D) ==
+  IF v.t = "null" \/ Has(ps, "ref") \/ Has(ps, "enum") THEN TRUE
+  ELSE CASE Main(ps) \in {"integer", "number"} -> v.t \notin {"num", "big"} \/ ImplNumAccepts(ps, v, D)
+         [] Main(ps) = "string" /\ ~Has(ps, "format") -> v.t # "str" \/ ImplStrAccepts(ps, v, D)
+         [] OTHER -> TRUE
+
 ImplStruct(env, s, d, D) ==
   /\ d.t = "obj"                                              \* json: cannot unmarshal X into struct / raw map
   /\ \A k \in ReqChecked(s, D) : ObjHas(d, k)                  \* requiredValidator (before typed decode)
   /\ \A k \in PropNames(s) \cap ObjKeys(d) : ImplValue(env, PropSchema(s, k), ObjVal(d, k), D)
+  /\ \A k \in PropNames(s) \cap ObjKeys(d) : LeafOK(PropSchema(s, k), ObjVal(d, k), D)   \* after typed decode
 
 ImplValue(env, s, v, D) ==
   IF v.t = "null" THEN TRUE                                    \* encoding/json: null is a no-op
@@ -47,28 +55,30 @@ ImplValue(env, s, v, D) ==
       [] T = "boolean" -> v.t = "bool"
       [] OTHER -> TRUE
 
-\* MergeTypes over resolved branches: properties merged key-wise (first wins), required appended
-Resolve(env, b) == IF Has(b, "ref") THEN EnvGet(env, b.ref.n) ELSE b
-RECURSIVE MergeProps(_, _)
-MergeProps(acc, rest) ==
-  IF rest = <<>> THEN acc
-  ELSE LET new == SelectSeq(Props(Head(rest)), LAMBDA kv : \A i \in DOMAIN acc : acc[i].k # kv.k)
-       IN MergeProps(acc \o new, Tail(rest))
-RECURSIVE ConcatReq(_)
-ConcatReq(bs) == IF bs = <<>> THEN <<>> ELSE (IF Has(Head(bs), "required") THEN Head(bs).required ELSE <<>>) \o ConcatReq(Tail(bs))
+\* MergeTypes over resolved branches (mergo.Merge with WithAppendSlice): property maps are merged
+\* key-wise and the *Type of a key present in several branches is merged keyword by keyword, an
+\* already set keyword winning (fill-zero) -- JV.MergedSchema; `required` lists are appended.
+Resolve(env, b) == ResolveB(env, b)
+Merged(env, branches) == MergedSchema(env, branches)
 
-Merged(env, branches) ==
-  LET rs == [i \in DOMAIN branches |-> Resolve(env, branches[i])] IN
-  ("type" :> <<"object">>) @@ ("properties" :> MergeProps(<<>>, rs)) @@ ("required" :> ConcatReq(rs))
-
-\* allOf: one struct for the merged type
-ImplAllOf(env, branches, v, D) == v.t = "null" \/ ImplStruct(env, Merged(env, branches), v, D)
+\* allOf: one struct for the merged type.  In the intended design every branch's constraints hold
+\* (conjunction); merging keyword-wise with "first wins" is deviation "AllOfFirstWins".
+ImplAllOf(env, branches, v, D) ==
+  \/ v.t = "null"
+  \/ IF "AllOfFirstWins" \in D THEN ImplStruct(env, Merged(env, branches), v, D)
+     ELSE /\ ImplStruct(env, Merged(env, branches), v, D)
+          /\ \A i \in DOMAIN branches :
+               LET b == Resolve(env, branches[i]) IN
+               \A k \in PropNames(b) \cap ObjKeys(v) :
+                  ImplValue(env, PropSchema(b, k), ObjVal(v, k), D) /\ LeafOK(PropSchema(b, k), ObjVal(v, k), D)
 
 \* anyOf: anyOfValidator tries each branch type's UnmarshalJSON on the same bytes, fails iff all fail;
 \* then typed decode into the merged struct (field types only)
+\* (the merged struct's own unmarshaler holds only the anyOf validator: no field validators)
 ImplAnyOf(env, branches, v, D) ==
   \/ v.t = "null"
   \/ /\ \E i \in DOMAIN branches : ImplStruct(env, Resolve(env, branches[i]), v, D)
-     /\ LET m == Merged(env, branches) IN
-        v.t = "obj" /\ \A k \in PropNames(m) \cap ObjKeys(v) : ImplValue(env, PropSchema(m, k), ObjVal(v, k), D)
+     /\ ("AnyOfMergedDecode" \in D =>
+          LET m == Merged(env, branches) IN
+          v.t = "obj" /\ \A k \in PropNames(m) \cap ObjKeys(v) : ImplValue(env, PropSchema(m, k), ObjVal(v, k), D))
 =============================================================================
